@@ -1,6 +1,7 @@
 package main
 
 import (
+	_ "verif/props/c22"
 	_ "verif/props/c23"
 	_ "verif/props/c24"
 	_ "verif/props/c25"
